@@ -1,5 +1,143 @@
-(* C02 — DataMatrix: placeholder while the proofs are being built *)
-From Verif Require Import Prelude DataMatrixM DataMatrixSpec.
-Example C02_placeholder : dm_smallest 3 <> None.
-Proof. discriminate. Qed.
-Print Assumptions C02_placeholder.
+(* C02 — DataMatrix: every accepted content decodes back to exactly that content.
+   Property theorems only; proofs live in proofs/DataMatrixP1..P4.v and
+   proofs/DataMatrixProps.v.  Model: model/DataMatrixM.v (reads gen/TabDataMatrix.v,
+   generated from /repo).  Specification: spec/DataMatrixSpec.v (ISO/IEC 16022
+   Table 7, Annex F placement, finder/clock, RS over GF(256)/301, ASCII
+   encodation, 253-state padding; reference reader dm_decode, validator dm_valid). *)
+From Coq Require Import FMapPositive.
+From Verif Require Import Prelude Barcode GFM TabDataMatrix DataMatrixM DataMatrixSpec
+  DataMatrixP1 DataMatrixP2 DataMatrixP3 DataMatrixP4 DataMatrixProps.
+
+(* Main theorem (layer 4).  For EVERY byte string the encoder accepts, the pixel
+   rows are a valid ECC 200 square symbol (dimensions of one of the 24 sizes,
+   finder and clock of every region, fixed lower-right pattern, every
+   interleaved Reed-Solomon block has zero syndromes at alpha^1..alpha^e, pad
+   codewords in 253-state form) and the reference reader (size from the
+   dimensions, strip finder/clock, Annex F order, ASCII decode) returns exactly
+   the content. *)
+Theorem C02_roundtrip : forall content bc, bytes content ->
+  dm_encode content = Ok bc ->
+  dm_valid (bc_rows bc) = true /\ dm_decode (bc_rows bc) = Some content.
+Proof. exact dm_c02_roundtrip. Qed.
+Print Assumptions C02_roundtrip.
+
+(* Layer 1: the 24 generated codeSizes rows are the ISO/IEC 16022 Table 7 rows
+   (symbol size, region size and count, data and check codewords, blocks). *)
+Theorem C02_tables : forall2b size_matches code_sizes iso_table = true.
+Proof. exact dm_c02_tables. Qed.
+Print Assumptions C02_tables.
+
+Theorem C02_tables_ascending :
+  ascending (map iso_size iso_table) = true /\ ascending (map iso_data iso_table) = true
+  /\ map iso_data iso_table =
+     [3; 5; 8; 12; 18; 22; 30; 36; 44; 62; 86; 114; 144; 174; 204; 280; 368; 456; 576; 696;
+      816; 1050; 1304; 1558].
+Proof. exact dm_c02_tables_ascending. Qed.
+Print Assumptions C02_tables_ascending.
+
+Theorem C02_capacities :
+  map data_codewords code_sizes =
+  [3; 5; 8; 12; 18; 22; 30; 36; 44; 62; 86; 114; 144; 174; 204; 280; 368; 456; 576; 696;
+   816; 1050; 1304; 1558]
+  /\ ascending (map data_codewords code_sizes) = true.
+Proof. exact dm_c02_capacities. Qed.
+Print Assumptions C02_capacities.
+
+(* the Galois field tables of the package's Reed-Solomon encoder (read from the
+   running package) are those of GF(256), polynomial 301, base 1 *)
+Theorem C02_gf_tables :
+  dm_gf_size = gf_size dm_field /\ dm_gf_base = gf_base dm_field
+  /\ dm_gf_alog = map (tget (gf_alog dm_field)) (zseq 0 256)
+  /\ dm_gf_log = map (tget (gf_log dm_field)) (zseq 0 256).
+Proof. exact dm_c02_gf_tables. Qed.
+Print Assumptions C02_gf_tables.
+
+(* Layer 2: for each of the 24 sizes the model of SetValues terminates without
+   panic (no cell written twice, no index out of range), uses exactly data+ecc
+   codewords, and its placement map is the Annex F map; every cell is written
+   except the two light modules of the fixed pattern. *)
+Theorem C02_placement : forall s, In s code_sizes ->
+  exists m a fired fx,
+    set_values s (total_codewords s) = Ok (m, total_codewords s, fired)
+    /\ ecc200 (matrix_rows s) (matrix_cols s) = Some (a, total_codewords s, fired, fx)
+    /\ forall pos, 0 <= pos < matrix_rows s * matrix_cols s ->
+         PositiveMap.find (key pos) m = spec_cell (aget a pos)
+         /\ (PositiveMap.find (key pos) m = None ->
+             fx = true /\ fixed_light (matrix_rows s) (matrix_cols s) pos = true).
+Proof. exact dm_c02_placement. Qed.
+Print Assumptions C02_placement.
+
+(* corner case 1 fires exactly for 14,22,32,40,48,120,144, case 2 for 16 and 24,
+   cases 3 and 4 for no square size, the fixed pattern for 12,16,20,24 *)
+Theorem C02_special_cases :
+  map special_cases code_sizes =
+  [ (10, [], false);  (12, [], true);   (14, [1], false); (16, [2], true);
+    (18, [], false);  (20, [], true);   (22, [1], false); (24, [2], true);
+    (26, [], false);  (32, [1], false); (36, [], false);  (40, [1], false);
+    (44, [], false);  (48, [1], false); (52, [], false);  (64, [], false);
+    (72, [], false);  (80, [], false);  (88, [], false);  (96, [], false);
+    (104, [], false); (120, [1], false); (132, [], false); (144, [1], false) ].
+Proof. exact dm_c02_special_cases. Qed.
+Print Assumptions C02_special_cases.
+
+(* Layer 3, unbounded: the ASCII decoder inverts encodeText on every byte string *)
+Theorem C02_ascii_roundtrip : forall s, bytes s ->
+  dm_ascii (encode_text s) 1 = Some (s, true).
+Proof. exact dm_c02_ascii_roundtrip. Qed.
+Print Assumptions C02_ascii_roundtrip.
+
+Theorem C02_ascii_length : forall s, zlength (encode_text s) = dm_ascii_len s.
+Proof. exact dm_c02_ascii_length. Qed.
+Print Assumptions C02_ascii_length.
+
+(* padding to any capacity: exact length, 129 + 253-state pads accepted by the
+   pad checker and stripped by the decoder *)
+Theorem C02_padding : forall s n, bytes s -> zlength (encode_text s) <= n ->
+  zlength (add_padding (encode_text s) n) = n
+  /\ dm_ascii (add_padding (encode_text s) n) 1 = Some (s, true).
+Proof. exact dm_c02_padding. Qed.
+Print Assumptions C02_padding.
+
+(* calcECC for a generated size s and its ISO row e: data kept, data+ecc
+   codewords, every interleaved block a Reed-Solomon codeword *)
+Theorem C02_blocks_valid : forall s e data,
+  static_ok s e = true -> zlength data = iso_data e -> bytes data ->
+  exists cws, calc_ecc data s = Ok cws
+    /\ zlength cws = iso_data e + iso_ecc e /\ bytes cws
+    /\ firstn (Z.to_nat (iso_data e)) cws = data
+    /\ rs_ok e cws = true.
+Proof. exact dm_c02_blocks_valid. Qed.
+Print Assumptions C02_blocks_valid.
+
+(* the hypothesis static_ok of the two theorems around holds for all 24 pairs *)
+Theorem C02_static_all : Forall2 (fun s e => static_ok s e = true) code_sizes iso_table.
+Proof. exact dm_c02_static_all. Qed.
+Print Assumptions C02_static_all.
+
+(* placement + region merge + finder/clock: ANY data+ecc codewords rendered for a
+   size are read back unchanged, finder/clock/fixed modules as specified *)
+Theorem C02_render_read : forall s e cws, static_ok s e = true ->
+  zlength cws = iso_total e -> bytes cws ->
+  exists rows exps,
+    render cws s = Ok rows
+    /\ dm_read rows = Some (e, exps, cws)
+    /\ forallb (expect_ok rows) exps = true
+    /\ zlength rows = iso_size e /\ Forall (fun r => zlength r = iso_size e) rows.
+Proof. exact dm_c02_render_read. Qed.
+Print Assumptions C02_render_read.
+
+(* ---------- non-vacuity ---------- *)
+Example C02_example_hello :
+  exists bc, dm_encode [72; 101; 108; 108; 111; 32; 49; 50; 51; 52] = Ok bc
+    /\ bc_width bc = 14 /\ dm_decode (bc_rows bc) = Some [72; 101; 108; 108; 111; 32; 49; 50; 51; 52].
+Proof. exact dm_example_hello. Qed.
+
+Example C02_example_bytes : bytes [72; 101; 108; 108; 111; 32; 49; 50; 51; 52; 200; 255; 0].
+Proof. exact dm_example_bytes. Qed.
+
+Example C02_example_largest :
+  exists bc, dm_encode (repeat 65 1558) = Ok bc /\ bc_width bc = 144.
+Proof. exact dm_example_largest. Qed.
+
+Example C02_example_too_long : dm_encode (repeat 65 1559) = Err.
+Proof. exact dm_example_too_long. Qed.
